@@ -356,6 +356,11 @@ def alt_time(v):
         yield lab, base + f
     if v == _dt.time(0, 0, 0):
         yield 'hour-24', '24:00:00'
+    # xs:time may carry a zone designator (read as the wall-clock time, like xs:date)
+    full = base + _fracs(v.microsecond)
+    yield 'tz-Z', full + 'Z'
+    yield 'tz-offset', full + '+05:30'
+    yield 'tz-negative-offset', full + '-11:00'
 
 
 def alt_date(v):
